@@ -5,7 +5,6 @@ package harness
 import (
 	"bytes"
 	"context"
-	"encoding/base64"
 	"encoding/hex"
 	"fmt"
 	"os"
@@ -40,7 +39,6 @@ import (
 	"github.com/stretchr/testify/require"
 	"go.uber.org/zap"
 	"go.uber.org/zap/zapcore"
-	"go.uber.org/zap/zaptest/observer"
 )
 
 // ---------------------------------------------------------------------------
@@ -63,7 +61,6 @@ type c13Net struct {
 	rpc       *rpcsrv.Server
 	mu        sync.Mutex
 	nns       util.Uint160
-	logs      *observer.ObservedLogs
 	sent      []c13Sent // every transaction a member handed to SendRawTransaction
 	clients   []*rpcclient.Internal
 }
@@ -149,9 +146,6 @@ func newC13Net(t testing.TB, n int, salt int64) *c13Net {
 	x.rpc.Start()
 	t.Cleanup(x.rpc.Shutdown)
 
-	core2, logs := observer.New(zapcore.InfoLevel)
-	_ = core2
-	x.logs = logs
 	return x
 }
 
@@ -277,24 +271,6 @@ func (x *c13Net) notaryDesignated() bool {
 		}
 	}
 	return true
-}
-
-// record reads the first TXT record of an NNS domain ("" if none).
-func (x *c13Net) record(domain string) string {
-	tx := x.exec.NewUnsignedTx(x.t, x.nns, "resolve", domain, int64(16))
-	res, err := x.exec.Chain.GetTestVM(0x40, tx, x.exec.NewUnsignedBlock(x.t, tx))
-	if err != nil {
-		return ""
-	}
-	defer res.Finalize()
-	res.VM.LoadWithFlags(tx.Script, 0x0f)
-	if err = res.VM.Run(); err != nil || res.VM.Estack().Len() == 0 {
-		return ""
-	}
-	arr, ok := res.VM.Estack().Pop().Item().Value().([]any)
-	_ = arr
-	_ = ok
-	return ""
 }
 
 // ---------------------------------------------------------------------------
@@ -684,5 +660,3 @@ func c13Bootstrap(c *c13) (string, string) {
 	defs := "Definition pcases : list pcase := [\n" + strings.Join(pcases, ";\n") + "\n].\n"
 	return defs, " ++ map check_pcase pcases"
 }
-
-var _ = base64.StdEncoding
